@@ -16,8 +16,9 @@
      * encodeToWithContextTakeover:  dict := writeWindowBuf; writeWindowBuf += msg;
        if WindowSize < Len then drop Len - WindowSize bytes from the front  -> Enc / Trim
      * decodeFromWithContextTakeover: the same on readWindowBuf       -> Read / Trim
-     * Transport.Write = Conn.Writer() ; encodeTo (window lock) ; wr.Write ; wr.Close
+     * Transport.Write = Conn.Writer() ; encodeTo { lock window ; encode ; wr.Write ; unlock } ; wr.Close
                                                                       -> start/acq/enc/emit/rel
+       (the window lock is held from the encoding until wr.Write returned, not until wr.Close)
    Abstractions: a message is identified by its id k (index in st.msgs) and has a length
    n (any unit; the monitor uses real byte counts); plaintext is never represented -- a
    dictionary is a sequence of segments [k, a, b] = bytes a..b-1 of message k, so that
@@ -72,19 +73,22 @@ Init0(mode, W) ==
      pc |-> [g \in Writers |-> "idle"],      \* idle, wait, acq, encr, enc, emit
      cur |-> [g \in Writers |-> 0],
      fdict |-> [g \in Writers |-> <<>>],
-     holder |-> 0, open |-> {}, inter |-> FALSE, fail |-> FALSE, last |-> "none"]
+     holder |-> 0,                           \* writer owning the Conn writer (Excl)
+     wl |-> 0,                               \* writer holding writeWindowBufMu: from encode until its wr.Write returned
+     open |-> {}, inter |-> FALSE, fail |-> FALSE, last |-> "none"]
 
 \* ---- writer steps (Transport.Write) ----
 Start(st, g, n) ==
     [st EXCEPT !.msgs = Append(@, [g |-> g, q |-> st.nq[g] + 1, n |-> n]),
                !.nq[g] = @ + 1, !.pc[g] = "wait", !.cur[g] = Len(st.msgs) + 1, !.last = "start"]
 Acq(st, g) == [st EXCEPT !.pc[g] = "acq", !.holder = IF Excl THEN g ELSE @, !.last = "acq"]
-EncR(st, g) == [st EXCEPT !.fdict[g] = IF st.mode = "ct" THEN st.ww ELSE <<>>, !.pc[g] = "encr", !.last = "encr"]
+EncR(st, g) == [st EXCEPT !.fdict[g] = IF st.mode = "ct" THEN st.ww ELSE <<>>, !.pc[g] = "encr",
+                          !.wl = IF WinLock /\ st.mode = "ct" THEN g ELSE @, !.last = "encr"]
 EncW(st, g) == [st EXCEPT !.ww = IF st.mode = "ct" THEN TrimW(AppendMsg(@, st.cur[g], st.msgs[st.cur[g]].n), st.W) ELSE @,
                           !.encs = Append(@, st.cur[g]),
                           !.pc[g] = "enc", !.last = "enc"]
 Enc(st, g) == EncW(EncR(st, g), g)
-Emit(st, g) == [st EXCEPT !.pc[g] = "emit", !.open = @ \cup {g},
+Emit(st, g) == [st EXCEPT !.pc[g] = "emit", !.open = @ \cup {g}, !.wl = IF @ = g THEN 0 ELSE @,
                           !.inter = @ \/ (st.open \ {g}) # {}, !.last = "emit"]
 Rel(st, g) == [st EXCEPT !.pc[g] = "idle", !.open = @ \ {g},
                          !.chan = Append(@, [k |-> st.cur[g], dict |-> st.fdict[g]]),
@@ -136,7 +140,7 @@ EnabledOps(st) ==
           THEN { [a |-> "start", tag |-> g, n |-> ClassLen(c, st.W), mode |-> c] :
                     g \in {x \in Writers : st.pc[x] = "idle" /\ Len(st.msgs) < MaxMsgs}, c \in Classes }
                \cup { [a |-> "acq", tag |-> g] : g \in {x \in Writers : st.pc[x] = "wait" /\ (Excl => st.holder = 0)} }
-               \cup (IF WinLock THEN { [a |-> "enc", tag |-> g] : g \in {x \in Writers : st.pc[x] = "acq"} }
+               \cup (IF WinLock THEN { [a |-> "enc", tag |-> g] : g \in {x \in Writers : st.pc[x] = "acq" /\ st.wl = 0} }
                      ELSE { [a |-> "encr", tag |-> g] : g \in {x \in Writers : st.pc[x] = "acq"} }
                           \cup { [a |-> "encw", tag |-> g] : g \in {x \in Writers : st.pc[x] = "encr"} })
                \cup { [a |-> "emit", tag |-> g] : g \in {x \in Writers : st.pc[x] = "enc"} }
